@@ -372,7 +372,7 @@ class Layer(BaseObject):
                 found[baseGlyph].add(glyphName)
         # scan glyphs that have not been loaded
         if self._glyphSet is not None:
-            glyphNames = set(self._glyphSet.contents.keys()) - set(self._glyphs.keys())
+            glyphNames = set(self._glyphSet.contents.keys()) - set(self._glyphs.keys()) - set(self._scheduledForDeletion.keys())
             for glyphName, baseList in self._glyphSet.getComponentReferences(glyphNames).items():
                 for baseGlyph in baseList:
                     if baseGlyph not in found:
@@ -398,7 +398,7 @@ class Layer(BaseObject):
                 found[fileName].append(glyphName)
         # scan glyphs that have not been loaded
         if self._glyphSet is not None:
-            glyphNames = set(self._glyphSet.contents.keys()) - set(self._glyphs.keys())
+            glyphNames = set(self._glyphSet.contents.keys()) - set(self._glyphs.keys()) - set(self._scheduledForDeletion.keys())
             for glyphName, fileName in self._glyphSet.getImageReferences(glyphNames).items():
                 if fileName not in found:
                     found[fileName] = []
@@ -519,7 +519,7 @@ class Layer(BaseObject):
                     else:
                         cmap[code] = [glyphName]
             if self._glyphSet is not None:
-                glyphNames = set(self._glyphSet.keys()) - set(self._glyphs.keys())
+                glyphNames = set(self._glyphSet.keys()) - set(self._glyphs.keys()) - set(self._scheduledForDeletion.keys())
                 for glyphName, unicodes in self._glyphSet.getUnicodes(glyphNames=glyphNames).items():
                     for code in unicodes:
                         if code in cmap:
